@@ -17,3 +17,17 @@ Inductive Expression :=
 Inductive ExpressionContext :=
 | ExpressionContext_Standard | ExpressionContext_Prefix | ExpressionContext_TypeAssertion
 | ExpressionContext_BinaryLHS | ExpressionContext_BinaryLHSExponent | ExpressionContext_UnaryOrBinary.
+
+(* Statements, as far as check_stmt_requires_semicolon (src/formatters/block.rs) looks into them.
+   FunctionCall and VarExpression share the one accessor the rule uses (`prefix`). *)
+Inductive Prefix := Prefix_Expression (expression : Expression) | Prefix_Name (name : TokenReference).
+Record Chain := { prefix : Prefix }.
+Inductive Var := Var_Expression (var_expression : Chain) | Var_Name (name : TokenReference).
+Record AssignmentNode := { variables : list Var }.
+Record CompoundNode := { lhs : Var }.
+Inductive Stmt :=
+| Stmt_Assignment (a : AssignmentNode) | Stmt_Do (u : unit) | Stmt_FunctionCall (c : Chain) | Stmt_FunctionDeclaration (u : unit)
+| Stmt_GenericFor (u : unit) | Stmt_If (u : unit) | Stmt_LocalAssignment (u : unit) | Stmt_LocalFunction (u : unit)
+| Stmt_NumericFor (u : unit) | Stmt_Repeat (u : unit) | Stmt_While (u : unit)
+| Stmt_CompoundAssignment (c : CompoundNode) | Stmt_ExportedTypeDeclaration (u : unit) | Stmt_TypeDeclaration (u : unit)
+| Stmt_ExportedTypeFunction (u : unit) | Stmt_TypeFunction (u : unit) | Stmt_Goto (u : unit) | Stmt_Label (u : unit).
